@@ -368,6 +368,12 @@ impl Prop for C07 {
             st.violation(case, sig, msg, json!({"detail": detail, "shape": p.to_json(), "check_seed": seed.to_string()}));
         }
     }
+    fn extra_stage(&self, st: &mut Stats, tier: Tier, seed: u64) {
+        // the unchecked index of the voxel renderer, interpreted by Miri
+        if tier == Tier::Thorough {
+            crate::props::miri::run_miri_stage(st, "voxel", seed % 1_000_000, None, 2 * 3600);
+        }
+    }
     fn finish(&self, st: &mut Stats, _tier: Tier) {
         let r = st.get("unpooled_renders").max(1);
         // (a tile can only be *full* when nothing above it was rendered
